@@ -376,6 +376,12 @@ class C02(ByteChanSpec):
         if res.verdict == "oos":
             stats["discard:out-of-scope"] += 1
             return Outcome(DISCARD, events, stats=stats, key=None, ticks=res.reads)
+        if res.verdict == "hang":
+            return Outcome(
+                VIOLATION, events, sig="C02/validator-does-not-terminate",
+                detail="the validator issued %d read() calls on a %d-byte stream without reaching a verdict (step budget exceeded)" % (res.reads, len(data)),
+                stats=stats, nontrivial=changed, key=key, ticks=res.reads,
+            )
         if res.verdict == "crash":
             return Outcome(
                 VIOLATION,
